@@ -853,6 +853,9 @@ static char c_shmbuf_rw (char **av) { int d = ai (av, 1), e = ai (av, 2); LIB ()
 	p_shm_buffer_clear (S[d].p);
 	pssize n = p_shm_buffer_write (S[d].p, b, sizeof b, e_in (e)); e_out (e); if (n != (pssize) sizeof b) return 'F';
 	pint m = p_shm_buffer_read (S[d].p, r, sizeof r, e_in (e)); e_out (e); return (m == (pint) sizeof r && !memcmp (b, r, sizeof r)) ? 'S' : 'F'; }
+static char c_shmbuf_fill (char **av) { int d = ai (av, 1), e = ai (av, 2); LIB (); NEED (d, T_SHMBUF); ERRARG (e, d);
+	p_shm_buffer_clear (S[d].p);
+	pssize n = p_shm_buffer_write (S[d].p, (ppointer) "fill!", 5, e_in (e)); e_out (e); return n == 5 ? 'S' : 'F'; }
 static char c_shmbuf_own (char **av) { int d = ai (av, 1); LIB (); NEED (d, T_SHMBUF); p_shm_buffer_take_ownership (S[d].p); return 'S'; }
 static char c_shmbuf_free (char **av) { int d = ai (av, 1); LIB (); NEED (d, T_SHMBUF); p_shm_buffer_free (S[d].p); clr (d); return 'S'; }
 
@@ -1116,7 +1119,7 @@ static const struct { const char *name; char (*fn) (char **); const char *may; }
 	{ "sock_udp_echo", c_sock_udp_echo }, { "sock_close", c_sock_close, "1SF" }, { "sock_free", c_sock_free }, { "sock_io_closed", c_sock_io_closed }, { "sock_from_fd", c_sock_from_fd },
 	{ "sem_new", c_sem_new, "!names" }, { "sem_cycle", c_sem_cycle }, { "sem_own", c_sem_own }, { "sem_free", c_sem_free, "!names" },
 	{ "shm_new", c_shm_new }, { "shm_own", c_shm_own }, { "shm_cycle", c_shm_cycle, "!shm" }, { "shm_free", c_shm_free, "!names" },
-	{ "shmbuf_new", c_shmbuf_new }, { "shmbuf_rw", c_shmbuf_rw, "!shm" }, { "shmbuf_own", c_shmbuf_own }, { "shmbuf_free", c_shmbuf_free, "!names" },
+	{ "shmbuf_new", c_shmbuf_new }, { "shmbuf_rw", c_shmbuf_rw, "!shm" }, { "shmbuf_fill", c_shmbuf_fill, "!shm" }, { "shmbuf_own", c_shmbuf_own }, { "shmbuf_free", c_shmbuf_free, "!names" },
 	{ "mutex_new", c_mutex_new }, { "mutex_free", c_mutex_free }, { "cond_new", c_cond_new }, { "cond_free", c_cond_free },
 	{ "rwlock_new", c_rwlock_new }, { "rwlock_free", c_rwlock_free }, { "rwlockg_new", c_rwlockg_new }, { "rwlockg_free", c_rwlockg_free },
 	{ "spin_new", c_spin_new }, { "spin_free", c_spin_free }, { "prof_new", c_prof_new }, { "prof_free", c_prof_free }, { "lock_cycle", c_lock_cycle },
@@ -1239,13 +1242,13 @@ STD (sock_fcntl_fail_accept, "sock_new 0 0 9", "sock_listen 0 9", "sock_new 1 0 
      "sock_new 3 0 9", "sock_connect 3 0 9", "sock_accept 0 2 9", "sock_free 3", "sock_free 2", "sock_free 1", "sock_free 0", "err_free 9")
 STD (sem_open_fail, "sysfail sem_open", "sem_new 0 0 1 9", "sem_free 0", "sem_new 0 0 0 9", "sysfail sem_open", "sem_new 1 0 0 9", "sem_free 1", "sem_free 0", "err_free 9")
 STD (sem_recreate, "sem_new 0 0 0 9", "sem_new 1 0 1 9", "sem_cycle 1 9", "sem_cycle 0 9", "sem_free 1", "sem_new 2 0 1 9", "sem_free 0", "sem_free 2", "err_free 9")
-STD (shm_lock_sem_open_fail, "sysfail sem_open", "shm_new 0 0 0 9", "shm_free 0", "shm_new 0 0 0 9", "sysfail sem_open", "shm_new 1 0 0 9", "shm_free 1",
+STD (shm_lock_sem_open_fail, "sysfail sem_open", "shm_new 0 0 0 9", "shm_free 0", "shm_new 0 0 0 9", "shm_cycle 0 9", "sysfail sem_open", "shm_new 1 0 0 9", "shm_free 1",
      "shm_cycle 0 9", "shm_free 0", "sysfail sem_open", "shmbuf_new 2 1 0 9", "shmbuf_free 2", "err_free 9")
 STD (sem_basic, "sem_new 0 0 1 9", "sem_cycle 0 9", "sem_free 0", "err_free 9")
 STD (sem_two, "sem_new 0 0 0 9", "sem_new 1 0 0 9", "sem_free 1", "sem_free 0", "err_free 9")
 STD (sem_own, "sem_new 0 0 0 9", "sem_new 1 0 0 9", "sem_free 0", "sem_own 1", "sem_free 1", "err_free 9")
 STD (shm_basic, "shm_new 0 0 0 9", "shm_cycle 0 9", "shm_free 0", "err_free 9")
-STD (shm_two_equal, "shm_new 0 0 0 9", "shm_new 1 0 0 9", "shm_free 1", "shm_free 0", "err_free 9")
+STD (shm_two_equal, "shm_new 0 0 0 9", "shm_cycle 0 9", "shm_new 1 0 0 9", "shm_free 1", "shm_free 0", "err_free 9")
 STD (shm_two_smaller, "shm_new 0 0 1 9", "shm_new 1 0 0 9", "shm_free 1", "shm_free 0", "err_free 9")
 STD (shm_two_larger, "shm_new 0 0 0 9", "shm_new 1 0 1 9", "shm_cycle 1 9", "shm_free 0", "shm_own 1", "shm_free 1", "err_free 9")
 STD (shm_mmap_fail, "sysfail mmap", "shm_new 0 0 0 9", "shm_free 0", "err_free 9")
@@ -1253,7 +1256,7 @@ STD (shm_ftruncate_fail, "sysfail ftruncate", "shm_new 0 0 0 9", "shm_free 0", "
 STD (shm_open_fail, "sysfail shm_open", "shm_new 0 0 0 9", "shm_free 0", "err_free 9")
 STD (shm_zero_size, "shm_new 0 0 4 9", "shm_free 0", "err_free 9")
 STD (shmbuf_basic, "shmbuf_new 0 1 0 9", "shmbuf_rw 0 9", "shmbuf_free 0", "err_free 9")
-STD (shmbuf_two, "shmbuf_new 0 1 0 9", "shmbuf_new 1 1 0 9", "shmbuf_rw 1 9", "shmbuf_free 1", "shmbuf_free 0", "err_free 9")
+STD (shmbuf_two, "shmbuf_new 0 1 0 9", "shmbuf_fill 0 9", "shmbuf_new 1 1 0 9", "shmbuf_rw 1 9", "shmbuf_free 1", "shmbuf_free 0", "err_free 9")
 STD (shmbuf_two_diff, "shmbuf_new 0 1 1 9", "shmbuf_new 1 1 0 9", "shmbuf_free 1", "shmbuf_free 0", "err_free 9")
 STD (shmbuf_small, "shm_new 0 1 3 9", "shmbuf_new 1 1 0 9", "shmbuf_free 1", "shm_free 0", "err_free 9")
 STD (locks_all, "mutex_new 0", "cond_new 1", "rwlock_new 2", "spin_new 3", "prof_new 4", "lock_cycle 0", "lock_cycle 1", "lock_cycle 2", "lock_cycle 3",
